@@ -5,5 +5,6 @@ set -e
 cd "$(dirname "$0")/.."
 /venv/bin/python -c "import numpy, pydantic, aiofiles, asyncstdlib, flatbuffers, xxhash, semver; print('python deps ok')"
 mkdir -p out/replays evidence .build
-if [ -x tools/build_rust.sh ]; then tools/build_rust.sh || echo "rust prebuild failed (checks will retry)"; fi
+tools/build_rust.sh || echo "rust prebuild failed (checks will retry)"
+tools/build_rustsim.sh || echo "rustsim prebuild failed (checks will retry)"
 echo setup done
